@@ -182,7 +182,9 @@ func (tr *Transaction) Write(b *Batch, wo *opt.WriteOptions) error {
 func (tr *Transaction) setDone() {
 	verifAt("t.done", tr.seq)
 	tr.closed = true
+	tr.db.trMu.Lock()
 	tr.db.tr = nil
+	tr.db.trMu.Unlock()
 	tr.mem.decref()
 	<-tr.db.writeLockC
 }
@@ -355,7 +357,17 @@ func (db *DB) OpenTransaction() (*Transaction, error) {
 		mem: db.mpoolGet(0),
 	}
 	tr.mem.incref()
+	db.trMu.Lock()
 	db.tr = tr
+	closed := db.isClosed()
+	db.trMu.Unlock()
 	verifAt("t.open", tr.seq)
+	if closed {
+		// Close has been called and may have looked for an open transaction
+		// before this one was registered: it waits for the write lock now
+		// and nobody else would end this transaction.
+		tr.Discard()
+		return nil, ErrClosed
+	}
 	return tr, nil
 }
